@@ -212,6 +212,26 @@ def r3(rep, prog):
         ok = bool(rets) and modified <= returned
         rep.ob("R3", "mapped function %s returns every argument object it modifies (%s)" % (name, sorted(modified)), ok, target.site(),
                "returned names: %s" % sorted(returned & set(params)), key="mapped/%s/returns" % name)
+        # ... and the caller keeps the returned objects: in a worker the modification happens on a
+        # copy, so the region's own contours must be replaced by what the map returned
+        src_attrs = sorted({x.attr for a in c.args[1:] for x in ast.walk(a) if is_self_attr(x) and x.attr in ("contours",)})
+        if modified and src_attrs:
+            stmt = next((s for s in walk_own(f.node) if isinstance(s, (ast.Assign, ast.Expr, ast.Return)) and any(x is c for x in ast.walk(s))), None)
+            res_names = set()
+            direct = False
+            if isinstance(stmt, ast.Assign):
+                for t in stmt.targets:
+                    if isinstance(t, ast.Name):
+                        res_names.add(t.id)
+                    if is_self_attr(t) and t.attr in src_attrs:
+                        direct = True
+            stored = direct
+            for s in walk_own(f.node):
+                if isinstance(s, ast.Assign) and s.lineno > c.lineno and any(is_self_attr(t) and t.attr in src_attrs for t in s.targets):
+                    if any(isinstance(x, ast.Name) and x.id in res_names for x in ast.walk(s.value)):
+                        stored = True
+            rep.ob("R3", "%s: the %s handed to %s are replaced by the objects the map returned" % (f.qualname, "/".join("self." + a for a in src_attrs), name), stored, f.site(c),
+                   "" if stored else "the map's result is not stored back: with worker processes the in-place changes made by %s are lost" % name, key="storeback/%s/%s" % (f.name, name))
 
 
 def r4(rep, mod, call, worker):
